@@ -17,7 +17,7 @@ def atom_text(d, g):
         if _re.fullmatch(r'[A-Za-z_][A-Za-z0-9_]*', w) and w.lower() not in ('nil', 'inf', 'nan', 'infinity'):
             return d.choice(['("%s")' % w, '(%s)' % w, '.("%s")' % w, '.(%s)' % w])
     if d.chance(0.2):
-        return d.choice(['wl_display', 'wl_registry', '.bind', '.delete_id', '2', '3a', 'wl_*', '.new', '.destroyed', 'A:', 'B:', '(nil)', 'wl_callback.done'])
+        return d.choice(['wl_display', 'wl_registry', '.bind', '.delete_id', '2', '3a', 'wl_*', '.new', '.destroyed', 'A:', 'B:', '(nil)', 'wl_callback.done', '#2', '#3a', '@2', '@3', '#1'])
     p = g.pattern()
     if p[0] in ('star', 'bang'):
         p = ['bare', None, ['id', 2]]
@@ -92,7 +92,7 @@ class Sequences(Stage):
                     c['which'] = twins[0]['which']
         # now and then the same commands over and over: matchers accumulated by hundreds of commands
         repeat = d.int(15, 50) if d.chance(0.04) else None
-        return dict(specs=specs, which=which, initial=initial, cmds=cmds, repeat=repeat)
+        return dict(specs=specs, which=which, initial=initial, cmds=cmds, repeat=repeat, at_prompt=d.chance(0.4))
 
     @staticmethod
     def text_of(c):
@@ -162,6 +162,7 @@ class Sequences(Stage):
         if any(c.get('raw') == '*' or '*' in c.get('alts', []) for c in case['cmds']): res.label('star-alternative')
         if any(c.get('raw') == '!' for c in case['cmds']): res.label('bang-reset')
         if case['initial']: res.label('initial-from-option')
+        if case.get('at_prompt'): res.label('typed-at-the-prompt')
         res.sample = dict(which=which0, initial=init, commands=[(c.get('which', first) + ' ' + self.text_of(c)) for c in case['cmds']], messages=len(specs))
         return res
 
@@ -198,7 +199,10 @@ class Sequences(Stage):
             n_out, n_err = len(s.out.buffer), len(s.err.buffer)
             before = [current(which).matches(m) for m in msgs]
             other_before = [current(other).matches(m) for m in msgs]
-            s.ctl.process_command(which + ' ' + text)
+            if case.get('at_prompt'):
+                s.type_at_prompt(which + ' ' + text)      # typed at the `wl debug $` prompt, as in file and run mode
+            else:
+                s.ctl.process_command(which + ' ' + text)
             out = s.out.buffer[n_out:]
             err = s.err.buffer[n_err:]
             cur = current(which)
